@@ -531,7 +531,7 @@ def kfOf (args : List String) : String :=
   | none => "-"
   | some c =>
     if c.stream && c.files.length ≥ 2 && !pinnedStreamCfg.clearsHeader then "KF-C11-1"
-    -- KF-C09-ctx-discard: `EncodeWithContext` on a plain writer whose context is cancelled during the DRY RUN, and the caller
+    -- KF-C09-ctx-discard (fixed in /repo 4876fc8; the class is empty for the repaired code): `EncodeWithContext` on a plain writer whose context is cancelled during the DRY RUN, and the caller
     -- goes on using the encoder (a later FIT value exists)
     else if !pinnedCtxCfg.restoresWriter && c.ctxMode && !c.stream && c.kind == .plain && !c.nilw && c.cont &&
         (match c.cx with
